@@ -3,7 +3,7 @@ from common import COMMON_TB
 PROP = {
     "bin": "c05",
     "prop_file": "Properties/C05.v",
-    "model_files": ["Storage/Crash.v", "Storage/CrashProofs.v", "Storage/ReaderGC.v", "Storage/ReaderGCProofs.v", "Storage/ReloadStore.v", "Storage/ReloadStoreProofs.v", "Storage/Flock.v", "Storage/FlockProofs.v"],
+    "model_files": ["Storage/Crash.v", "Storage/CrashProofs.v", "Storage/ReaderGC.v", "Storage/ReaderGCProofs.v", "Storage/ReloadStore.v", "Storage/ReloadStoreProofs.v", "Storage/Flock.v", "Storage/FlockProofs.v", "Storage/UpdaterLife.v", "Storage/UpdaterLifeProofs.v"],
     "level": "proof",
     "engine": "E1-storage",
     "level_text": "Proof: a small-step model of reader reloads (lock, read meta.json, open files, unlock), meta publication and garbage collection (lock section, then "
